@@ -8,6 +8,7 @@ Streams
   tree   : abstract projects (harness/progen.py) x random surface spellings ->
            real FortranSourceFile; the observation must equal the canonical tree of
            the abstract project (property oracle; independent of the model).
+  entity / args / argq : harness/c01_entity.py (name of a declared entity, matching of dummy arguments);
   ptype  : harness/c01_ptype.py; mask / restore / lits : harness/c01_mask.py;
   attrs / attrq : harness/c01_attrs.py (attribute statements x declarations with several entities:
            correspondence with FordModel/Attribs.lean, and the two-spellings oracle).
@@ -410,6 +411,12 @@ def file_features(text):
     return feats
 
 
+def judge(exp, obs, feats, text):
+    """[(difference, finding id or None)] of one observation, [] when it is the expected one"""
+    why = progen.diff(exp, obs)
+    return [] if why is None else [(why, classify(why, feats, text))]
+
+
 PREFIX_WORD_FUNCTION = re.compile(r"^[^!\n]*\([^)\n]*(?:impure|pure|elemental|non_recursive|recursive|module)[^\n]*\)[^\n]*\bfunction\s+(\w+)", re.M)
 
 
@@ -440,6 +447,13 @@ def run(tier: str, seed: int, replay: str | None = None) -> int:
     from ford.sourceform import FortranSourceFile
 
     drv = Driver()
+    try:
+        vocab = tr.vocabulary()
+    except Exception as e:  # noqa
+        vocab = []
+        rep.tie_broken("translator: the vocabulary of ford/sourceform.py could not be read: %s" % e)
+    from harness import c01_attrs as _ca, c01_thead as _th
+    _ca.VOCAB, _th.VOCAB = list(vocab), list(vocab)
     n_struct = 2500 if tier == "quick" else 30000
     n_tree = 250 if tier == "quick" else 4000
     rng = random.Random(seed * 1000003 + 1)
@@ -497,23 +511,25 @@ def run(tier: str, seed: int, replay: str | None = None) -> int:
                             re.fullmatch(r'"\d+"', x) and int(x[1:-1]) < i for i, x in enumerate(ls))
                 for f_ in feats:
                     tree_feats[f_] = tree_feats.get(f_, 0) + 1
-                why = None
+                verdicts = []
                 try:
                     with common.quiet() as buf:
                         fobj = FortranSourceFile(str(p), ProjectSettings())
                     obs = progen.obs_file(fobj)
-                    why = progen.diff(sorted(exp[fn], key=progen.unit_key), sorted(obs, key=progen.unit_key))
-                    if why is None and "ERROR in file" in buf.getvalue():
+                    verdicts = judge(sorted(exp[fn], key=progen.unit_key), sorted(obs, key=progen.unit_key), feats, text)
+                    if not verdicts and "ERROR in file" in buf.getvalue():
                         why = "diagnostic on valid input: " + buf.getvalue().strip().splitlines()[0][:120]
+                        verdicts = [(why, classify(why, feats, text))]
                 except Exception as e:  # noqa
                     why = "FORD failed on valid input: %s: %s" % (type(e).__name__, str(e)[:100])
+                    verdicts = [(why, classify(why, feats, text))]
                 distinct.add(common.digest(text))
                 if len(samples) < 4 and k < 2:
                     samples.append({"stream": "tree", "file": fn, "text": text[:1500]})
-                if why is not None:
+                for why, fid in verdicts:
                     n_fail += 1
                     rep.failing_input({"stream": "tree", "project_index": k, "file": fn, "why": why,
-                                       "features": sorted(feats), "text": text}, classify(why, feats, text))
+                                       "features": sorted(feats), "text": text}, fid)
         # ---------------- ptype stream: parse_type vs FordModel/TypeSpec.lean + spelling oracle
         from harness import c01_ptype
         pt = c01_ptype.run_stream(drv, ford, random.Random(seed * 424243 + 5),
@@ -540,9 +556,16 @@ def run(tier: str, seed: int, replay: str | None = None) -> int:
         vr_ = c01_thead.run_varre(drv, ford, random.Random(seed * 373737 + 37), 3000 if tier == "quick" else 60000, rep, d, distinct)
         n_dis += tr_["disagree"] + ts_["disagree"] + vr_["disagree"]
         n_fail += tq_["oracle_fail"]
+        # ---------------- entity / args / argq streams (FordModel/Entity.lean): the name of a declared entity, dummy arguments
+        from harness import c01_entity
+        en_ = c01_entity.run_entity(drv, ford, random.Random(seed * 414141 + 41), 3000 if tier == "quick" else 60000, rep, d, distinct)
+        ar_ = c01_entity.run_args(drv, ford, random.Random(seed * 434343 + 43), 800 if tier == "quick" else 15000, rep, d, distinct)
+        aq_ = c01_entity.run_argq(ford, random.Random(seed * 474747 + 47), 250 if tier == "quick" else 5000, rep, d, distinct)
+        n_dis += en_["disagree"] + ar_["disagree"]
+        n_fail += aq_["oracle_fail"]
     rep.coverage.update(
         evaluations=len(cases) + n_files + pt["cases"] + pt["groups"] + mk["cases"] + rs["cases"] + lt["cases"] + at["cases"]
-        + aq["spellings"] + tr_["cases"] + ts_["cases"] + tq_["spellings"] + vr_["cases"],
+        + aq["spellings"] + tr_["cases"] + ts_["cases"] + tq_["spellings"] + vr_["cases"] + en_["cases"] + ar_["cases"] + aq_["spellings"],
         distinct_nontrivial=len(distinct),
         rule="struct: statement-kind sequences (well-formed nestings, 1-3 point mutations of them, junk), distinct by token "
              "sequence; tree: generated abstract projects x random spellings, one evaluation per source file, distinct by text; "
@@ -554,10 +577,20 @@ def run(tier: str, seed: int, replay: str | None = None) -> int:
              "declaration per entity), one evaluation per spelling (both distinct by text); typere / varre: one statement per case (type "
              "definitions in both spellings, SELECT TYPE guards, declarations, their 1-2 point mutations, junk; identifiers dense in "
              "keyword prefixes), typestmt: the same statements inside a module (distinct by text + inherited permission), typeq: abstract "
-             "derived types with keyword-like names in two spellings, one evaluation per spelling",
+             "derived types with keyword-like names in two spellings, one evaluation per spelling; entity: one entity text per case "
+             "(name + array / coarray specification / character length in legal order, any order, 1-2 point mutations, junk); "
+             "args: one procedure per case (0-4 dummy arguments, declared or not, 0-3 locals, one or several entities per "
+             "declaration, the character length in the type specification or after the name); argq: the same abstract procedures "
+             "in two spellings of the character length, one evaluation per spelling",
         samples=samples,
         traces_validated_against_impl=len(cases) + pt["cases"] - pt["unmodelled"] + mk["cases"] - mk["unmodelled"]
-        + rs["cases"] - rs["unmodelled"] + at["cases"] + tr_["cases"] - tr_["unmodelled"] + ts_["cases"] - ts_["unmodelled"] + vr_["cases"] - vr_["unmodelled"],
+        + rs["cases"] - rs["unmodelled"] + at["cases"] + tr_["cases"] - tr_["unmodelled"] + ts_["cases"] - ts_["unmodelled"] + vr_["cases"] - vr_["unmodelled"]
+        + en_["cases"] + ar_["cases"],
+        compiled_patterns_vs_modelled=dict(tr.REGEX_HOW),
+        vocabulary_words=len(vocab),
+        entity_stream=en_,
+        args_stream=ar_,
+        argq_stream=aq_,
         varre_stream=vr_,
         typere_stream=tr_,
         typestmt_stream=ts_,
@@ -576,6 +609,16 @@ def run(tier: str, seed: int, replay: str | None = None) -> int:
         tree_literal_statements=tree_lits,
     )
     rep.assumptions += [
+        "round 5: the regenerated tables follow the meaning of the code - the cascade with alpha-renamed locals and inlined one-line "
+        "helpers, `hasattr` observed on live objects when `_cleanup` is entered, `_can_have_contains` read at run time, compiled "
+        "patterns compared with the modelled ones by parse tree or exhaustive differential run, and the mirrored statements (masking / "
+        "restoring loop, attribute bookkeeping, type branch + initialiser, entity split, argument matching) PROBED: the real functions run "
+        "on a fixed input list extended by every keyword-like word of ford/sourceform.py, and the theorems `*_as_modelled` prove that the "
+        "models compute the recorded answers; a change of behaviour outside the probe inputs is left to the random correspondence streams",
+        "the name / specification split of an entity and the matching of dummy arguments are modelled (Entity.lean); dummy procedures "
+        "described by interface bodies, the result variable of a function and `implicit` statements are outside that model; FORD keeps "
+        "the character length written after an entity name in `dimension` (it shows `character(len=1) :: c*10`, an equivalent "
+        "declaration): the oracles read the effective length of such an entity from there",
         "which concrete statements each cascade regex accepts is tied by differential execution only (no Lean regex semantics)",
         "parse_type is modelled at character level (TypeSpec.lean) for ASCII input without line feeds; a quote inside a character kind "
         "expression is answered `unmodelled` by the model and skipped (counted) in the correspondence",
